@@ -34,6 +34,12 @@ var defers = []kv{
 	{"builtin", "mm := map[string]int{\"a\": 1, \"b\": 2}\ndefer func() { Show(\"d-builtin\", len(mm)) }()\ndefer delete(mm, \"a\")"},
 	{"closech", "ch := make(chan int, 1)\ndefer func() { _, ok := <-ch; Show(\"d-closech\", ok) }()\ndefer close(ch)"},
 	{"recrepanic", `defer func() { r := recover(); Show("d-recrepanic", r != nil); if r != nil { panic(r) } }()`},
+	// the same defer statement executed several times before its deferred calls run (loop): builtins, literals, methods
+	{"loopdelete", "dm := map[int]bool{0: true, 1: true, 2: true, 3: true}\ndefer func() { Show(\"d-loopdelete\", len(dm), dm[3], dm[0]) }()\nfor i := 0; i < 3; i++ {\ndefer delete(dm, i)\n}"},
+	{"loopclose", "chs := []chan int{make(chan int, 1), make(chan int, 1), make(chan int, 1)}\ndefer func() {\nfor k := 0; k < len(chs); k++ {\nselect {\ncase _, ok := <-chs[k]:\nShow(\"d-loopclose\", ok)\ndefault:\nShow(\"d-loopclose open\")\n}\n}\n}()\nfor i := 0; i < 2; i++ {\ndefer close(chs[i])\n}"},
+	{"loopcopy", "dst := make([]int, 4)\ndefer func() { Show(\"d-loopcopy\", dst) }()\nfor i := 0; i < 3; i++ {\ndefer copy(dst[i:], []int{i + 1})\n}"},
+	{"loopmethod", "for i := 0; i < 2; i++ {\ndefer pp.PM(i * 5)\n}"},
+	{"loopnamed", "for i := 0; i < 2; i++ {\ndefer named2(\"d-loopnamed\", i)\n}"},
 }
 
 var endings = []kv{
@@ -93,6 +99,8 @@ func describe(tag string, r interface{}) {
 	}
 }
 `
+
+var coreDefer = map[string]bool{"lit": true, "rec": true, "nested": true, "args": true, "result": true, "repanic": true, "method": true, "loopdelete": true}
 
 func stackText(st []int) string {
 	var b strings.Builder
@@ -154,6 +162,9 @@ func main() {
 			if len(gs) == 2 && !thorough {
 				continue
 			}
+			if len(gs) == 2 && !(coreDefer[defers[gs[0]].name] && coreDefer[defers[gs[1]].name]) {
+				continue // thorough: two-defer stacks in g over the core kinds only (the binary must stay linkable)
+			}
 			for _, en := range endings {
 				for _, m := range mains {
 					text := head + "func g() (res int) {\n" + stackText(gs) + en.text + "\n}\n\nfunc f() (res int) {\n" + stackText(fs) + "res = g() + 100\nShow(\"f-after-g\", res)\nreturn res\n}\n\n" + m.text
@@ -163,6 +174,28 @@ func main() {
 					} else {
 						progs = append(progs, s)
 					}
+				}
+			}
+		}
+	}
+	// family R: the same defer statement at several depths of a recursion, parametrised by the depth
+	rdefers := []kv{
+		{"lit", "defer func() { Show(\"r-lit\", d) }()"},
+		{"arg", "defer named2(\"r-arg\", d)"},
+		{"delete", "defer delete(rm, d)"},
+		{"close", "defer close(rchs[d])"},
+		{"copy", "defer copy(rdst[d:], []int{d + 1})"},
+		{"method", "defer pp.PM(d)"},
+		{"result", "defer func() { res += d }()"},
+		{"rec", "defer func() { if d == 1 { Show(\"r-rec\", recover() != nil) } }()"},
+	}
+	rdecl := "var rm = map[int]bool{0: true, 1: true, 2: true, 9: true}\n\nvar rchs = []chan int{make(chan int), make(chan int), make(chan int)}\n\nvar rdst = make([]int, 4)\n\nfunc rstate() {\n\topen := 0\n\tfor k := 0; k < len(rchs); k++ {\n\t\tselect {\n\t\tcase <-rchs[k]:\n\t\tdefault:\n\t\t\topen++\n\t\t}\n\t}\n\tShow(\"r-state\", len(rm), rm[9], open, rdst)\n}\n\n"
+	for _, a := range rdefers {
+		for _, b := range append([]kv{{"-", ""}}, rdefers...) {
+			for _, en := range endings {
+				for _, m := range []kv{mains[0], mains[2]} {
+					text := head + rdecl + "func rf(d int) (res int) {\n" + a.text + "\n" + b.text + "\nif d > 0 {\nreturn rf(d-1) + 1\n}\n" + en.text + "\n}\n\nfunc f() (res int) {\ndefer rstate()\nreturn rf(2)\n}\n\n" + m.text
+					progs = append(progs, emit.Src{Name: fmt.Sprintf("R:%s+%s|%s|main:%s", a.name, b.name, en.name, m.name), Text: text})
 				}
 			}
 		}
